@@ -150,4 +150,13 @@ def Sess.read (s : Sess) (sid cap : Nat) : Sess × SROut :=
   | some p => (s.set sid (DG.read p cap).1, .r (DG.read p cap).2)
   | none => (s, .noStream)
 
+/-- `Stream.Read(buf)` with `cap = len(buf)`: an empty buffer is answered `(0, nil)` before the pipe is asked
+(`Gen.Datagram.streamReadEmptyBufIsNoop`, the `io.Reader` convention), otherwise the pipe's `Read` -/
+def Sess.sread (s : Sess) (sid cap : Nat) : Sess × SROut :=
+  if Gen.Datagram.streamReadEmptyBufIsNoop && cap == 0 then
+    match s.get sid with
+    | some _ => (s, .r (.data []))
+    | none => (s, .noStream)
+  else s.read sid cap
+
 end DG
